@@ -19,12 +19,14 @@ META = {
                   "point lies in its leaf's box, query returns min(k,n) distinct indices in non-decreasing distance none of "
                   "which is farther than any index left out, query_radius returns exactly the indices within the radius. "
                   "Leaf test, split predicate, degenerate-split fallback, axis cycling, box update, box excess, both prune "
-                  "predicates, the eviction test and the result order are regenerated from the source on every run; the "
+                  "predicates, the eviction test, the result order and the PriorityItem comparator / PriorityQueue plumbing are regenerated from the source on every run; the "
                   "loops are tied by kernel-evaluated correspondence batches (whole node array, query answers).",
     "level_note": "Trusted: Coq kernel + vm_compute; the kdtree/aabb translator; the correspondence harness (generators, "
                   "driver canonicalisation, doubling of coordinates so medians are integral, comparison of squared instead "
-                  "of square-rooted distances on small integers); the candidate heap (PriorityQueue, property C20) is "
-                  "modelled as a sorted bounded list (answers compared modulo ties); numpy argsort(kind='stable'), median, "
+                  "of square-rooted distances on small integers); the candidate heap is modelled concretely (heapq sift algorithm copied "
+                  "from the C20 model with its proved contract, comparator/plumbing regenerated from priority_queue.py); answers are "
+                  "still compared modulo ties (measured: with exact index comparison all quick cases agree too); aliasing between "
+                  "PriorityQueue objects is not modelled but tested (ambient queues must stay unchanged); numpy argsort(kind='stable'), median, "
                   "extract and the RNG are observed (pivots recorded), not modelled.",
 }
 
@@ -126,8 +128,27 @@ def gen_case(rng, maxn=24):
         else:
             m = rng.randint(0, 400)
         rad.append([Q, m])
-    return {"dim": d, "pts": pts, "mls": mls, "strategy": strategy, "seed": rng.randint(0, 2 ** 31 - 1),
+    case = {"dim": d, "pts": pts, "mls": mls, "strategy": strategy, "seed": rng.randint(0, 2 ** 31 - 1),
             "dtype": "int" if rng.random() < 0.15 else "float", "knn": knn, "rad": rad, "style": style}
+    if rng.random() < 0.35:
+        case["ambient"] = gen_ambient(rng)
+    return case
+
+
+def gen_ambient(rng):
+    """One or two other PriorityQueue objects of the program with a few pending items (payloads >= 1000 so that they
+    can never be mistaken for point indices; negative priorities = the '-score' max-queue idiom, and positive ones)."""
+    qs = []
+    for a in range(rng.choice([1, 1, 2])):
+        style = rng.choice(["neg", "pos", "mixed"])
+        items = []
+        for j in range(rng.randint(1, 5)):
+            w = rng.randint(1, 40) / 4.0
+            if style == "neg" or (style == "mixed" and rng.random() < 0.5):
+                w = -w
+            items.append([1000 + 10 * a + j, w])
+        qs.append(items)
+    return qs
 
 
 def exhaustive_cases():
@@ -202,6 +223,11 @@ def oracle(case, obs):
         if sorted(ans) != want:
             return ("radius-set", "query_radius(%s/2, sqrt(%d)/2) returned %s, the points within the radius are %s"
                     % (Q, m, sorted(ans), want))
+    if case.get("ambient"):
+        want = [sorted([[x, float(w)] for x, w in items], key=repr) for items in case["ambient"]]
+        if obs.get("ambient_after") != want:
+            return ("ambient-queue-changed", "other PriorityQueue objects alive during the run were modified: they held %s, "
+                    "afterwards %s" % (want, obs.get("ambient_after")))
     return None
 
 
@@ -220,6 +246,14 @@ def shrink(case, key, budget=30.0):
         o = oracle(c, run_one(c, 1.0))
         return o is not None and o[0] == key
     cur = json.loads(json.dumps(case))
+    if cur.get("ambient"):
+        for cand_amb in ([], cur["ambient"][:1], cur["ambient"][1:]):
+            cand = dict(cur, ambient=cand_amb)
+            if not cand_amb:
+                cand.pop("ambient")
+            if cand_amb != cur["ambient"] and fails(cand):
+                cur = cand
+                break
     # keep only one failing query
     for fld in ("knn", "rad"):
         for keep in ([], ) + tuple([x] for x in cur[fld]):
@@ -237,6 +271,15 @@ def shrink(case, key, budget=30.0):
             if fails(cand):
                 cur = cand
                 changed = True
+        for ai in range(len(cur.get("ambient", []))):
+            for ii in range(len(cur["ambient"][ai]) - 1, -1, -1):
+                if len(cur["ambient"][ai]) > 1:
+                    amb = [list(x) for x in cur["ambient"]]
+                    amb[ai] = amb[ai][:ii] + amb[ai][ii + 1:]
+                    cand = dict(cur, ambient=amb)
+                    if fails(cand):
+                        cur = cand
+                        changed = True
         for qi, (Q, k) in enumerate(cur["knn"]):
             if k > 1:
                 cand = dict(cur, knn=[[q2, (k2 - 1 if j == qi else k2)] for j, (q2, k2) in enumerate(cur["knn"])])
@@ -310,7 +353,9 @@ def run(ctx):
     ctx.rule = ("integer point sets of dimension 1-5, 0-24 points (thorough: up to 40), styles uniform / clustered / collinear / "
                 "axis-degenerate / duplicated / all-identical / majority-duplicate / grid; leaf sizes 1-4 (occasionally 6, 10); strategies balanced / "
                 "fast / random with seeded numpy RNG; per case 3 kNN queries (k in 1..n+2, query on / near / far from the data) "
-                "and 2 radius queries (radius 0, a data point exactly on the sphere, random). Non-trivial = the build splits "
+                "and 2 radius queries (radius 0, a data point exactly on the sphere, random); in 35% of the cases one or two other "
+                "mouette PriorityQueue objects with pending items (negative / positive priorities) are alive during build and queries "
+                "and must be left unchanged. Non-trivial = the build splits "
                 "at least once (n > leaf size); distinct = by canonical JSON of the case")
     ctx.assumptions += [
         "coordinates are small integers (queries half-integers), everything is doubled on the Coq side; squared distances "
@@ -363,8 +408,10 @@ def run(ctx):
             ctx.count("splits<=%d" % (4 * ((len(o["pivots"]) + 3) // 4)))
             if any(nd[0] == "N" and nd[3] != pv for nd, pv in zip([x for x in o["nodes"] if x[0] == "N"], o["pivots"])):
                 ctx.count("cases with a degenerate (rank) split")
-        ctx.case_seen([c["dim"], c["pts"], c["mls"], c["strategy"], c["seed"], c["knn"], c["rad"]], nontrivial=n > c["mls"],
-                      sample={"case": {k: c[k] for k in ("dim", "pts", "mls", "strategy", "knn", "rad")}, "observed": o}
+        if c.get("ambient"):
+            ctx.count("cases with ambient PriorityQueue objects alive")
+        ctx.case_seen([c["dim"], c["pts"], c["mls"], c["strategy"], c["seed"], c["knn"], c["rad"], c.get("ambient")], nontrivial=n > c["mls"],
+                      sample={"case": {k: c[k] for k in ("dim", "pts", "mls", "strategy", "knn", "rad", "ambient") if k in c}, "observed": o}
                       if 3 < n < 9 else None)
         m = oracle(c, o)
         if m:
